@@ -22,12 +22,15 @@ RULE = ('random API-built designs from gen_designs (3..16 ops, registers, memori
         'hand-shaped families (F18 three-net reconvergence, diamonds of depth 2..5, register rings, '
         'register self-loops through the queried wire, memory write->read loops with 1..2 ports, '
         'memories with 1..3 read and 1..3 write ports under every limited/unlimited max_read_ports/'
-        'max_write_ports declaration, balanced equal-delay trees that hit cp_limit) x integer gate_delay_funcs tables '
+        'max_write_ports declaration, SYNCHRONOUS memories/ROMs indexed by registers/inputs through 0..3 levels '
+        'of w/s/c wiring nets with a write port and register feedback, balanced equal-delay trees that hit '
+        'cp_limit) x integer gate_delay_funcs tables '
         '(unit / random constant / width-dependent / free wires; r and @ negative), each used as is and '
         'scaled by 2**-40, 2**-20, 2**20 (exact dyadic floats, results unscaled exactly) x cp_limit in '
         '{1,2,3,100} x tech/ffoverhead x up to 10 (quick) or 30 (thorough) (src,dst) queries per design '
         '(Input->Output, reachable pairs, src=dst loops, unreachable pairs), each asked as a single pair AND '
-        'through every other argument shape of paths(): list/set/tuple collections of sources and destinations '
+        'through every other argument kind of paths(): list/set/tuple/frozenset/dict_keys collections and one-shot '
+        'iterables (generator, iter(), map) of sources and destinations, chosen independently for src and dst '
         '(the loop sources are also destinations), paths(), paths(src) and paths(dst=) defaults; every entry '
         '[s][d] is compared with the independent simple-path enumeration.  The default delay table is compared '
         'numerically with the documented per-op formulas (memory read: bits and max(#read nets,#write nets)).  '
@@ -218,6 +221,49 @@ def shaped(rng, kind):
             acc = binop(rng, acc, x, w)
         o = pyrtl.Output(w, 'o')
         o <<= ~acc
+    elif kind == 'syncmem':
+        # SYNCHRONOUS memories / ROMs: the index may only come from registers, inputs and constants
+        # through wiring nets (w / s / c); several wiring levels, read data feeding registers,
+        # a write port (memory loop) and an output
+        aw = rng.choice([2, 3])
+        r0 = pyrtl.Register(aw + 2, 'r0')
+        r1 = pyrtl.Register(aw + 1, 'r1')
+        i = pyrtl.Input(aw, 'i')
+
+        def index(depth):
+            k = rng.randrange(5)
+            if depth == 0 or k == 0:
+                base = rng.choice([r0, r1, i])
+                lo = rng.randint(0, len(base) - aw)
+                return base[lo:lo + aw]
+            if k == 1:
+                t = pyrtl.WireVector(aw)
+                t <<= index(depth - 1)
+                return t
+            if k == 2:
+                a, b = index(depth - 1), index(depth - 1)
+                cut = rng.randint(1, aw - 1)
+                return pyrtl.concat(a[:cut], b[cut:])
+            if k == 3:
+                x = index(depth - 1)
+                return pyrtl.concat(*[x[j] for j in rng.sample(range(aw), aw)])
+            return pyrtl.concat(pyrtl.Const(rng.getrandbits(1), bitwidth=1), index(depth - 1)[1:])
+        if rng.random() < 0.35:
+            m = pyrtl.RomBlock(bitwidth=w, addrwidth=aw, romdata=[rng.getrandbits(w) for _ in range(1 << aw)],
+                               name='m', max_read_ports=None, asynchronous=False)
+        else:
+            m = pyrtl.MemBlock(bitwidth=w, addrwidth=aw, name='m', max_read_ports=None,
+                               max_write_ports=None, asynchronous=False)
+        rds = [pyrtl.as_wires(m[index(rng.randint(0, 3))]) for _ in range(rng.randint(1, 2))]
+        acc = rds[0]
+        for x in rds[1:]:
+            acc = binop(rng, acc, x, w)
+        if isinstance(m, pyrtl.MemBlock) and not isinstance(m, pyrtl.RomBlock):
+            m[index(rng.randint(0, 2))] <<= binop(rng, acc, i[:w] if w <= aw else i.zero_extended(w), w)
+        r0.next <<= pyrtl.concat(acc, r1)[:len(r0)] if rng.random() < 0.5 else r0 + 1
+        r1.next <<= pyrtl.concat(r0[0], index(1))[:len(r1)]
+        o = pyrtl.Output(w, 'o')
+        o <<= ~acc
     elif kind == 'tree':
         depth = rng.randint(2, 4)
         leaves = [pyrtl.Input(w, 'l%d' % j) for j in range(rng.randint(1, 3))]
@@ -236,7 +282,16 @@ def shaped(rng, kind):
     return pyrtl.working_block()
 
 
-SHAPES = ['f18', 'diamond', 'memports', 'ring', 'srcloop', 'memloop', 'diamond', 'memports', 'memloop', 'tree']
+SHAPES = ['f18', 'diamond', 'memports', 'ring', 'syncmem', 'srcloop', 'memloop', 'diamond', 'syncmem',
+          'memports', 'memloop', 'tree']
+
+
+ARG_KINDS = [('list', list), ('set', set), ('tuple', tuple),
+             ('generator', lambda ws: (w for w in ws)),
+             ('iter', lambda ws: iter(list(ws))),
+             ('map', lambda ws: map(lambda w: w, ws)),
+             ('frozenset', frozenset),
+             ('dict_keys', lambda ws: {w: None for w in ws}.keys())]
 
 
 def make_foreign(block):
@@ -782,13 +837,18 @@ def analyse(ctx, i, found, exprs, cases, fq_exprs, fq_cases):
     others = [(s, d) for s, d in queries if s is not d][:2]
     msrc = dedupe(loops + [s for s, _ in others])
     mdst = dedupe(loops + [d for _, d in others])
-    cont = [list, set, tuple][i % 3]
+    # every documented argument kind (Iterable[WireVector]): materialised collections and
+    # one-shot iterables, chosen independently for src and dst
+    skind, smake = ARG_KINDS[(i // len(ARG_KINDS) + i) % len(ARG_KINDS)]
+    dkind, dmake = ARG_KINDS[i % len(ARG_KINDS)]
     impl_multi = []
     if msrc and mdst:
-        srcarg = msrc[0] if (len(msrc) == 1 and i % 2) else cont(msrc)
-        how = 'paths(%s, %s(%s))' % (msrc[0].name if srcarg is msrc[0] else '%s(%s)' % (
-            cont.__name__, ', '.join(w.name for w in msrc)), cont.__name__, ', '.join(w.name for w in mdst))
-        res = pyrtl.paths(srcarg, cont(mdst), **bk)
+        single = (len(msrc) == 1 and i % 2 == 1)
+        srcarg = msrc[0] if single else smake(msrc)
+        how = 'paths(%s, %s(%s))' % (msrc[0].name if single else '%s(%s)' % (
+            skind, ', '.join(w.name for w in msrc)), dkind, ', '.join(w.name for w in mdst))
+        ctx.count('paths() argument kinds (src / dst)', '%s / %s' % ('single wire' if single else skind, dkind))
+        res = pyrtl.paths(srcarg, dmake(mdst), **bk)
         if same_keys(res, msrc, mdst, how):
             for s in msrc:
                 row = []
